@@ -146,7 +146,7 @@ class Gen:
                 if len(act) > 1:
                     r = rnd.choice(act)
                     af = rnd.choice([None, 0.0, 1.2, 2.4, 2.5, 2.6, 10.0, 16.2, 45.5, 99.0])
-                    rstat[str(r)] = ["REMOVED", af, rstat[str(r)][2]]
+                    rstat[str(r)] = ["REMOVED", af, None]  # a removed runner has no starting price
                     version += 1
             u = {
                 "pt": pt,
